@@ -681,6 +681,38 @@ fn arena_on<const M: usize>(seed: u64) {
     verify(&live, "at the end");
 }
 
+/// C06: "resetting an arena that never obtained memory is a no-op". Natively a reset that stores
+/// the values already there into the shared static empty chunk cannot be told from one that does
+/// nothing; two threads doing it at once are a data race that Miri reports.
+fn scenario_chunkless_reset(seed: u64) {
+    let mut r = Rng(seed ^ 0xC06);
+    let n = 2 + r.below(2) as usize;
+    let rounds: Vec<usize> = (0..n).map(|_| 1 + r.below(3) as usize).collect();
+    let handles: Vec<_> = rounds
+        .into_iter()
+        .map(|k| {
+            std::thread::spawn(move || {
+                let mut seen = 0usize;
+                for _ in 0..k {
+                    let mut b = Bump::new();
+                    b.reset();
+                    b.reset();
+                    seen += b.allocated_bytes() + b.iter_allocated_chunks().count();
+                    let mut b8 = Bump::<8>::with_min_align();
+                    b8.reset();
+                    seen += b8.chunk_capacity();
+                }
+                seen
+            })
+        })
+        .collect();
+    for h in handles {
+        if h.join().unwrap() != 0 {
+            fail("C06", "sig=C06/chunkless-reset-not-a-noop".to_string());
+        }
+    }
+}
+
 fn scenario_arena(seed: u64) {
     arena_on::<1>(seed);
     arena_on::<8>(seed.wrapping_add(1));
@@ -698,6 +730,7 @@ fn main() {
         Some("scripts") => scenario_scripts(seed),
         Some("collections") => scenario_collections(seed),
         Some("arena") => scenario_arena(seed),
+        Some("chunkless_reset") => scenario_chunkless_reset(seed),
         Some("noop") => {}
         _ => {
             eprintln!("usage: bumpmiri zst|threads|handover|scripts [seed]");
